@@ -67,6 +67,8 @@ def check(ctx):
     _ir_tables(ctx, repo)
     _thin(ctx, repo, cg)
     _admission(ctx, repo)
+    ctx.rule("C05-R7", "call() hands every function node to eval as a fresh KGCall, so that the per-node compile memo of a statement-level operator node does not outlive the evaluation that specialised it to its argument types")
+    check_rewrap(ctx, repo, "C05-R7")
     ctx.note("callgraph_resolution", cg.resolution_stats())
 
 
@@ -297,6 +299,27 @@ def _short(d):
     return f"{d[0]} {d[1]}"
 
 
+def check_rewrap(ctx, repo, rid):
+    """shared with C03: `call` re-wraps every KGFn (operator nodes included) before eval"""
+    f = repo.fn("interpreter:KlongInterpreter.call")
+    ctx.instance(rid, f.fq)
+    rets = [r for r in walk_local(f.node) if isinstance(r, ast.Return)]
+    if len(rets) != 1 or not (isinstance(rets[0].value, ast.Call) and isinstance(rets[0].value.func, ast.Attribute) and rets[0].value.func.attr == "eval" and rets[0].value.args):
+        ctx.error(f"{rid}: call() is no longer `return self.eval(<expr>)`; cannot decide the re-wrapping clause")
+        return
+    e = rets[0].value.args[0]
+    if not isinstance(e, ast.IfExp):
+        ctx.ob(rid, f.fq, "call() wraps function nodes in a fresh KGCall", False, node=rets[0], construct="call re-wraps function nodes",
+               msg="call() passes function nodes to eval as they are: the compile memo lands on the shared body node and a function compiled for numeric arguments keeps running Python operators on later string/symbol arguments")
+        return
+    t = e.test
+    plain = isinstance(t, ast.Call) and callee_name(t) == "isinstance" and len(t.args) == 2 and src(t.args[1]) == "KGFn"
+    fresh_wrap = isinstance(e.body, ast.Call) and callee_name(e.body) == "KGCall" and [src(a) for a in e.body.args] == [f"{src(t.args[0])}.a", f"{src(t.args[0])}.args", f"{src(t.args[0])}.arity"] if plain else False
+    ctx.ob(rid, f.fq, "every KGFn (operator nodes included) is re-wrapped: the test is exactly isinstance(x, KGFn)", plain, node=rets[0], construct="call re-wraps every function node",
+           msg=f"call() re-wraps only when `{src(t)}`: the excluded nodes are evaluated in place, so their per-node compile memo persists across calls with other argument types (f::{{x*y}};f(2;3);f(\"ab\";2) -> \"abab\")")
+    ctx.ob(rid, f.fq, "the wrapper is KGCall(x.a, x.args, x.arity)", bool(fresh_wrap), node=rets[0], construct="call wrapper shape")
+
+
 # ------------------------------------------------------------------ R5
 def _admission(ctx, repo):
     f = repo.fn("compiler:_ast_to_ir")
@@ -347,6 +370,7 @@ SEEDS = [
     Seed("reduce-min-as-max", "fault", "backends/numpy_backend", "'|': 'np.maximum.reduce', '&': 'np.minimum.reduce'}", "'|': 'np.minimum.reduce', '&': 'np.maximum.reduce'}", rule="C05-R4"),
     Seed("isinstance-admission", "fault", "compiler", "        tv = type(val)\n        if tv is int or tv is float:", "        if isinstance(val, (int, float)):", rule="C05-R5"),
     Seed("negate-unparenthesised", "fault", "backends/numpy_backend", "            return f'(-{child})'", "            return f'-{child}'", rule="C05-R6"),
+    Seed("call-skips-op-nodes", "fault", "interpreter", "        return self.eval(KGCall(x.a, x.args, x.arity) if isinstance(x, KGFn) else x)", "        return self.eval(KGCall(x.a, x.args, x.arity) if isinstance(x, KGFn) and not x.is_op() else x)", rule="C05-R7"),
     Seed("refactor-handler-comment", "refactor", "interpreter", "                except Exception:\n                    pass  # fall through to interpreter", "                except Exception:  # any failure of the compiled code\n                    pass"),
     Seed("refactor-opset-order", "refactor", "compiler", "_CMP_OPS = {'>', '<', '='}", "_CMP_OPS = {'=', '<', '>'}"),
 ]
